@@ -61,6 +61,11 @@ func c16alphabet() []c16op {
 		{id: "G8", json: `{"group":"g2","name":"gm2","set":3,"labels":{"a":"1","b":"2"}}`, group: "g2", name: "gm2", action: "set", value: 3, labels: L("a", "1", "b", "2")},
 		{id: "G9", json: `{"group":"g1","name":"gm","action":"set","value":5,"labels":{"a":"1","b":"2"}}`, group: "g1", name: "gm", action: "set", value: 5, labels: L("a", "1", "b", "2")},
 		{id: "G10", json: `{"group":"g2","name":"un","action":"set","value":4,"labels":{"c":"1"}}`, group: "g2", name: "un", action: "set", value: 4, labels: L("c", "1")},
+		// a label with an empty value (an optional field through jq) on a name other operations use with that label set
+		{id: "U6", json: `{"name":"un2","set":2.5,"labels":{"a":"1","b":""}}`, name: "un2", action: "set", value: 2.5, labels: L("a", "1", "b", "")},
+		// a grouped metric whose name uses the {PREFIX} template (the storage has the prefix pfx_)
+		{id: "G11", json: `{"group":"g1","name":"{PREFIX}gp","action":"set","value":1,"labels":{"a":"1"}}`, group: "g1", name: "pfx_gp", action: "set", value: 1, labels: L("a", "1")},
+		{id: "G12", json: `{"group":"g1","name":"{PREFIX}gpc","add":2,"labels":{}}`, group: "g1", name: "pfx_gpc", action: "add", value: 2, labels: L()},
 		{id: "I1", json: `{"name":"um","value":1}`, invalid: true},
 		{id: "I2", json: `{"group":"g1","name":"gm","action":"observe","value":1,"buckets":[1]}`, invalid: true},
 		{id: "I3", json: `{"name":"un","action":"set"}`, invalid: true},
@@ -114,6 +119,9 @@ func (r *c16ref) dropped(o c16op) bool {
 func c16labels(l map[string]string, hook string) string {
 	m := map[string]string{"hook": hook}
 	for k, v := range l {
+		if v == "" {
+			continue // a label with an empty value is the same as no label (exposition format)
+		}
 		m[k] = v
 	}
 	ks := make([]string, 0, len(m))
@@ -283,7 +291,7 @@ func c16classify(hist []c16batch) string {
 }
 
 func c16run(hist []c16batch) (sig, what, outcome string) {
-	m := NewMetricStorage(context.Background(), "", true, log.NewNop())
+	m := NewMetricStorage(context.Background(), "pfx_", true, log.NewNop())
 	ref := newC16ref()
 	alt := newC16ref()
 	alt.collide = true
